@@ -66,7 +66,8 @@ Next == (\E m \in Alphabet : Recv(m)) \/ EndOfScript
 Spec == Init /\ [][Next]_vars
 
 \* ---------------------------------------------------------------- the client's opening phase
-\* What the client says before it starts listening, as stanza types in order.  kind: "recipient" (plugin.Recipient),
+\* What the client says before it starts listening, as stanza types in order.  kind: "recipient" (plugin.Recipient,
+\* through WrapWithLabels or through the plain Wrap method: the same opening, the labels extension announced either way),
 \* "recipient-from-identity" (the recipient-v1 machine opened for a plugin identity: age -e -i / -j), "identity"
 \* (identity-v1, which forwards the nHdr stanzas of the file header, all with file index 0).
 Rep(x, n) == [i \in 1..n |-> x]
